@@ -43,14 +43,14 @@ def run(chk):
             tdis.append((t, "print", pa, pb))
     chk.cov["accepted_documents"] = accepted
     # reach of the round-trip THEOREM (Thm/C04 `print_parse_roundtrip`): on how many of the accepted documents do its
-    # hypotheses hold?  (model only; profile = no DOCTYPE).  An accepted document of the profile whose
+    # hypotheses hold?  (model only; profile = what the printer can write faithfully, `canonDoc`).  An accepted document of the profile whose
     # hypotheses fail is a gap of the theorem, not of the code: reported in the evidence, never as a violation.
     acc_texts = [t for t, a in zip(texts, impl_rt) if a.startswith("ok ")]
     th = lib.run_lines(lib.model_driver(), [lib.req("thm04", t) for t in acc_texts], per_line_resume=True)
     in_profile = [(t, r) for t, r in zip(acc_texts, th) if r.startswith("profile=1")]
     covered = [t for t, r in in_profile if r == "profile=1 ok=1 faithful=1 depth=1 canon=1"]
     gaps = [(t, r) for t, r in in_profile if r != "profile=1 ok=1 faithful=1 depth=1 canon=1"]
-    chk.cov["theorem_reach"] = {"accepted": len(acc_texts), "in_profile_no_doctype": len(in_profile),
+    chk.cov["theorem_reach"] = {"accepted": len(acc_texts), "in_profile": len(in_profile),
                                 "hypotheses_hold": len(covered),
                                 "gaps": [lib.enc(t)[:200] + " -> " + r for t, r in gaps[:5]]}
     chk.cov["features"] = X.feature_histogram(docs)
